@@ -19,6 +19,7 @@ import (
 
 	"verifharness/internal/fakemysql"
 	"verifharness/internal/pbt"
+	"verifharness/internal/proxyfix"
 	sh "verifharness/internal/sesshist"
 )
 
@@ -371,9 +372,12 @@ func describe(ms []*model) string {
 const rule = "histories of 12-30 (thorough 12-60) commands for 1-3 sessions over 1-3 slices (hash rule) with 0-2 replicas, pools of 1-3 (+3..4 dynamic), users with and without read/write splitting, keep-session on in a third of the cases: BEGIN / START TRANSACTION / COMMIT / ROLLBACK / SET autocommit / SAVEPOINT family / unsharded and sharded reads, writes and SELECT ... FOR UPDATE / USE / SET variable / COM_PING / disconnect; non-trivial = some transaction has two statements with another session's statement in between"
 
 func TestC18History(t *testing.T) {
+	if _, err := proxyfix.Shared(); err != nil {
+		t.Fatalf("fixture: the shared proxy did not start: %v", err) // inconclusive, not a violation
+	}
 	gen := genCase
 	if pbt.Tier() == "thorough" {
 		gen = genCaseThorough
 	}
-	pbt.Run(t, pbt.Spec{ID: "C18", Sub: "history", Quick: 150, Thorough: 1200, Rule: rule, Floor: 0.3}, gen, checkCase)
+	pbt.Run(t, pbt.Spec{ID: "C18", Sub: "history", Quick: 300, Thorough: 1000, Rule: rule, Floor: 0.3}, gen, checkCase)
 }
